@@ -1,11 +1,419 @@
 package main
 
-import "fmt"
+import (
+	"encoding/json"
+	"fmt"
+	"os"
+	"path/filepath"
+	"sort"
+	"strconv"
+	"strings"
+	"time"
+)
 
-func runCheck(prop, tier string) int { fmt.Println("not yet"); return 2 }
-func runReplayCmd(prop, file string) int { return 2 }
-func listAll(e *Engine) {
+type KnownFinding struct {
+	Property   string `json:"property"`
+	Obligation string `json:"obligation"` // obligation name (exact) the finding makes fail
+	What       string `json:"what"`
+	Status     string `json:"status"` // open | fixed
+	Commit     string `json:"commit,omitempty"`
+	Input      string `json:"input,omitempty"`
+}
+
+func loadKnownFindings() []KnownFinding {
+	var out []KnownFinding
+	data, err := os.ReadFile("/verif/KNOWN_FINDINGS.jsonl")
+	if err != nil {
+		return nil
+	}
+	for _, l := range strings.Split(string(data), "\n") {
+		l = strings.TrimSpace(l)
+		if l == "" || strings.HasPrefix(l, "#") {
+			continue
+		}
+		var k KnownFinding
+		if json.Unmarshal([]byte(l), &k) == nil {
+			out = append(out, k)
+		}
+	}
+	return out
+}
+
+type oblRecord struct {
+	Name     string `json:"name"`
+	Kind     string `json:"kind"`
+	Tag      string `json:"tag"` // P L F K
+	Function string `json:"function,omitempty"`
+	Text     string `json:"text,omitempty"`
+	Status   string `json:"status"`
+	Backend  string `json:"backend"`
+	Ms       int64  `json:"ms"`
+	Rung     string `json:"rung,omitempty"`
+}
+
+type propRun struct {
+	prop       string
+	tier       string
+	records    []oblRecord
+	failed     []failure
+	functions  []string
+	assumed    map[string]bool
+	trusted    map[string]bool
+	warnings   map[string]bool
+	undecided  []string
+	bounded    []map[string]interface{}
+	byBackend  map[string]int
+	solverMs   int64
+	vacuity    int
+}
+
+type failure struct {
+	rec    oblRecord
+	detail string
+	obl    *Obl
+	model  string
+}
+
+func hasProp(props []string, p string) bool {
+	for _, q := range props {
+		if q == p {
+			return true
+		}
+	}
+	return false
+}
+
+func runCheck(prop, tier string) int {
+	t0 := time.Now()
+	seed := 0
+	if s := os.Getenv("VERIF_SEED"); s != "" {
+		seed, _ = strconv.Atoi(s)
+	}
+	if tier != "quick" && tier != "thorough" {
+		fmt.Fprintln(os.Stderr, "tier must be quick or thorough")
+		return 2
+	}
+	e := mustEngine()
+	pr := &propRun{prop: prop, tier: tier, assumed: map[string]bool{}, trusted: map[string]bool{}, warnings: map[string]bool{}, byBackend: map[string]int{}}
+	timeout := 10
+	if tier == "thorough" {
+		timeout = 60
+	}
+	// ---- P obligations: functions under contract serving this property
+	var keys []string
 	for k, c := range e.contracts {
-		fmt.Println(k, c.Props, c.Trusted)
+		if hasProp(c.Props, prop) && !c.Trusted && !c.Opaque {
+			keys = append(keys, k)
+		}
+	}
+	sort.Strings(keys)
+	for _, k := range keys {
+		if e.byKey[k] == nil {
+			// function under contract disappeared: undecided, not a violation
+			pr.undecided = append(pr.undecided, k+": function not found in the current tree (renamed/removed)")
+			fmt.Printf("UNDECIDED property=%s function=%s reason=function-not-found\n", prop, k)
+			continue
+		}
+		res, err := e.verifyFunction(k)
+		if err != nil {
+			pr.undecided = append(pr.undecided, k+": "+err.Error())
+			fmt.Printf("UNDECIDED property=%s function=%s reason=%s\n", prop, k, sanitizeLine(err.Error()))
+			continue
+		}
+		pr.functions = append(pr.functions, k)
+		if len(res.Fatals) > 0 {
+			for _, f := range uniq(res.Fatals) {
+				pr.undecided = append(pr.undecided, k+": "+f)
+			}
+			fmt.Printf("UNDECIDED property=%s function=%s reason=%s\n", prop, k, sanitizeLine(res.Fatals[0]))
+			continue
+		}
+		for _, a := range res.Assumed {
+			pr.assumed[a] = true
+		}
+		for _, a := range res.Trusted {
+			pr.trusted[a] = true
+		}
+		for _, w := range res.Warnings {
+			pr.warnings[k+": "+w] = true
+		}
+		results := dischargeAll(res.Obls, timeout)
+		for _, o := range res.Obls {
+			r := results[o]
+			rec := oblRecord{Name: o.Name, Kind: o.Kind, Tag: "P", Function: o.Fn, Text: o.Text, Status: r.Status, Backend: r.Solver, Ms: r.Ms, Rung: r.Rung}
+			if o.Kind == "vacuity" {
+				pr.vacuity++
+			}
+			pr.add(rec, r, o)
+		}
+	}
+	// ---- lemmas
+	for _, sf := range e.specs {
+		for _, lm := range sf.Lemmas {
+			if !hasProp(lm.Props, prop) {
+				continue
+			}
+			o, err := e.lemmaObligation(lm)
+			if err != nil {
+				pr.undecided = append(pr.undecided, "lemma "+lm.Name+": "+err.Error())
+				fmt.Printf("UNDECIDED property=%s lemma=%s reason=%s\n", prop, lm.Name, sanitizeLine(err.Error()))
+				continue
+			}
+			results := dischargeAll(o, timeout)
+			for _, ob := range o {
+				r := results[ob]
+				pr.add(oblRecord{Name: ob.Name, Kind: ob.Kind, Tag: "L", Text: ob.Text, Status: r.Status, Backend: r.Solver, Ms: r.Ms, Rung: r.Rung}, r, ob)
+			}
+		}
+	}
+	// ---- K and F obligations
+	for _, sf := range e.specs {
+		for _, k := range sf.KObls {
+			if !hasProp(k.Props, prop) {
+				continue
+			}
+			t1 := time.Now()
+			ok, detail := e.evalK(k)
+			st := "proved"
+			if !ok {
+				st = "refuted"
+			}
+			rec := oblRecord{Name: "K/" + k.Name, Kind: "layout", Tag: "K", Text: k.Text, Status: st, Backend: "consteval", Ms: time.Since(t1).Milliseconds()}
+			pr.add(rec, &SolveResult{Status: st, Solver: "consteval", Output: detail, Model: detail}, nil)
+		}
+		for _, f := range sf.FObls {
+			if !hasProp(f.Props, prop) {
+				continue
+			}
+			t1 := time.Now()
+			ok, detail := e.evalF(f)
+			st := "proved"
+			if !ok {
+				st = "refuted"
+			}
+			rec := oblRecord{Name: "F/" + f.Name, Kind: "effect", Tag: "F", Text: f.Text, Status: st, Backend: "effects", Ms: time.Since(t1).Milliseconds()}
+			pr.add(rec, &SolveResult{Status: st, Solver: "effects", Output: detail, Model: detail}, nil)
+		}
+	}
+	// ---- bounded stand-ins (never counted as proved)
+	pr.bounded = runBounded(e, prop, tier, seed)
+
+	return pr.finish(e, seed, t0)
+}
+
+func sanitizeLine(s string) string {
+	s = strings.ReplaceAll(s, "\n", " ")
+	s = strings.ReplaceAll(s, " ", "_")
+	if len(s) > 160 {
+		s = s[:160]
+	}
+	return s
+}
+
+func (pr *propRun) add(rec oblRecord, r *SolveResult, o *Obl) {
+	pr.records = append(pr.records, rec)
+	pr.solverMs += r.Ms
+	if r.Status == "proved" {
+		pr.byBackend[r.Solver]++
+		return
+	}
+	detail := r.Model
+	if detail == "" {
+		detail = r.Output
+	}
+	pr.failed = append(pr.failed, failure{rec: rec, detail: detail, obl: o, model: r.Model})
+}
+
+func (pr *propRun) finish(e *Engine, seed int, t0 time.Time) int {
+	known := loadKnownFindings()
+	violations := 0
+	var knownReported []string
+	exit := 0
+	os.MkdirAll(filepath.Join("/verif/replays", pr.prop), 0o755)
+	for _, f := range pr.failed {
+		matched := false
+		for _, k := range known {
+			if k.Property == pr.prop && k.Status == "open" && k.Obligation == f.rec.Name {
+				fmt.Printf("KNOWN-FINDING: property=%s %s [obligation %s]\n", pr.prop, k.What, f.rec.Name)
+				knownReported = append(knownReported, f.rec.Name+": "+k.What)
+				matched = true
+				break
+			}
+		}
+		if matched {
+			continue
+		}
+		violations++
+		exit = 1
+		path := filepath.Join("/verif/replays", pr.prop, sanitize(f.rec.Name)+".json")
+		rp := buildReplay(e, pr.prop, f)
+		data, _ := json.MarshalIndent(rp, "", " ")
+		os.WriteFile(path, data, 0o644)
+		suffix := ""
+		if !rp.FailingInputFound {
+			suffix = " no-failing-input-found"
+		}
+		fmt.Printf("  failed obligation %s (%s, %s): %s\n", f.rec.Name, f.rec.Kind, f.rec.Status, f.rec.Text)
+		fmt.Printf("VIOLATION property=%s replay=%s%s\n", pr.prop, path, suffix)
+	}
+	obligations := len(pr.records)
+	discharged := 0
+	for _, r := range pr.records {
+		if r.Status == "proved" {
+			discharged++
+		}
+	}
+	// evidence
+	var samples []interface{}
+	for i, r := range pr.records {
+		if i < 12 || r.Status != "proved" {
+			samples = append(samples, r)
+		}
+	}
+	trusted := []string{
+		"A-tool: go/packages+go/ssa (x/tools v0.50.0), the bbvc VC generator, z3 4.8.12 / z3 5.1.0 / cvc5 1.0",
+		"A-nil: pointer dereferences assumed non-nil (nil-dereference panics out of scope)",
+		"A-typeassert: unchecked type assertions assumed to succeed",
+		"integers: Go fixed-width arithmetic modelled bit-precisely by explicit wrap terms over SMT Int; spec arithmetic is mathematical",
+	}
+	for k := range pr.trusted {
+		trusted = append(trusted, "trusted contract: "+k)
+	}
+	sort.Strings(trusted[4:])
+	var assumptions []string
+	for k := range pr.assumed {
+		assumptions = append(assumptions, "unchecked callee: "+k)
+	}
+	sort.Strings(assumptions)
+	assumptions = append(assumptions, propAssumptions[pr.prop]...)
+	var warns []string
+	for w := range pr.warnings {
+		warns = append(warns, w)
+	}
+	sort.Strings(warns)
+	cov := map[string]interface{}{
+		"obligations":             obligations,
+		"discharged":              discharged,
+		"checker_cmd":             fmt.Sprintf("/verif/bin/bbvc check %s %s", pr.prop, pr.tier),
+		"trusted_base":            trusted,
+		"samples":                 samples,
+		"functions_under_contract": pr.functions,
+		"by_backend":              pr.byBackend,
+		"solver_ms_total":         pr.solverMs,
+		"vacuity_checks":          pr.vacuity,
+		"known_findings_reported": knownReported,
+		"undecided":               pr.undecided,
+		"bounded":                 pr.bounded,
+		"engine_warnings":         warns,
+		"by_tag":                  tagCounts(pr.records),
+		"explanation":             "obligations generated from /repo's SSA (go/ssa) and the //@ contracts; each discharged by an SMT solver (P/L), by go/types constant evaluation (K) or by effect inference over the SSA call graph (F). Bounded stand-ins are listed separately and never counted as discharged.",
+	}
+	ev := map[string]interface{}{
+		"property_id": pr.prop,
+		"tier":        pr.tier,
+		"seed":        seed,
+		"level":       "proof",
+		"coverage":    cov,
+		"assumptions": assumptions,
+		"wall_s":      time.Since(t0).Seconds(),
+		"violations":  violations,
+	}
+	os.MkdirAll("/verif/evidence", 0o755)
+	data, _ := json.MarshalIndent(ev, "", " ")
+	os.WriteFile(filepath.Join("/verif/evidence", pr.prop+".json"), data, 0o644)
+	fmt.Printf("%s %s: %d obligations, %d discharged, %d known findings, %d violations, %d undecided, %.1fs\n",
+		pr.prop, pr.tier, obligations, discharged, len(knownReported), violations, len(pr.undecided), time.Since(t0).Seconds())
+	if obligations == 0 {
+		fmt.Printf("ERROR: no obligations were generated for %s (vacuous run)\n", pr.prop)
+		return 3
+	}
+	return exit
+}
+
+func tagCounts(rs []oblRecord) map[string]int {
+	m := map[string]int{}
+	for _, r := range rs {
+		m[r.Tag]++
+	}
+	return m
+}
+
+// per-property standing assumptions (DESIGN.md §5/§6); repeated in every evidence file
+var propAssumptions = map[string][]string{}
+
+type Replay struct {
+	Property          string `json:"property"`
+	Obligation        string `json:"obligation"`
+	Kind              string `json:"kind"`
+	Function          string `json:"function,omitempty"`
+	Text              string `json:"text"`
+	Status            string `json:"status"`
+	Backend           string `json:"backend"`
+	SolverOutput      string `json:"solver_output"`
+	FailingInputFound bool   `json:"failing_input_found"`
+	ReplayKind        string `json:"replay_kind,omitempty"`
+	ReplayTest        string `json:"replay_test,omitempty"`
+	ReplayCmd         string `json:"replay_cmd,omitempty"`
+	ReplayOutput      string `json:"replay_output,omitempty"`
+	Note              string `json:"note,omitempty"`
+}
+
+func buildReplay(e *Engine, prop string, f failure) *Replay {
+	rp := &Replay{Property: prop, Obligation: f.rec.Name, Kind: f.rec.Kind, Function: f.rec.Function, Text: f.rec.Text,
+		Status: f.rec.Status, Backend: f.rec.Backend, SolverOutput: firstLines(f.detail, 400)}
+	tryReplay(e, prop, f, rp)
+	if !rp.FailingInputFound && rp.Note == "" {
+		rp.Note = "no concrete failing input was produced for this obligation; the obligation passed on the unchanged tree and fails now (solver output attached)"
+	}
+	return rp
+}
+
+func runReplayCmd(prop, file string) int {
+	data, err := os.ReadFile(file)
+	if err != nil {
+		fmt.Fprintln(os.Stderr, err)
+		return 2
+	}
+	var rp Replay
+	if err := json.Unmarshal(data, &rp); err != nil {
+		fmt.Fprintln(os.Stderr, err)
+		return 2
+	}
+	fmt.Printf("obligation: %s\n%s\nstatus: %s (%s)\n", rp.Obligation, rp.Text, rp.Status, rp.Backend)
+	if rp.ReplayTest == "" {
+		fmt.Println("no executable replay recorded (no-failing-input-found); solver output:")
+		fmt.Println(rp.SolverOutput)
+		return 1
+	}
+	out, failed := runOverlayTest(rp.ReplayTest, rp.ReplayKind)
+	fmt.Println(out)
+	if failed {
+		return 1
+	}
+	return 0
+}
+
+func listAll(e *Engine) {
+	byProp := map[string][]string{}
+	for k, c := range e.contracts {
+		for _, p := range c.Props {
+			tag := ""
+			if c.Trusted {
+				tag = " (trusted)"
+			}
+			byProp[p] = append(byProp[p], k+tag)
+		}
+	}
+	var ps []string
+	for p := range byProp {
+		ps = append(ps, p)
+	}
+	sort.Strings(ps)
+	for _, p := range ps {
+		sort.Strings(byProp[p])
+		fmt.Println(p)
+		for _, k := range byProp[p] {
+			fmt.Println("   ", k)
+		}
 	}
 }
